@@ -1,6 +1,7 @@
 """C14 — file caches return the value for the key, or recompute (dictionary model with unique values + damage ops)."""
 from __future__ import annotations
 
+import copy
 import random
 import shutil
 import tempfile
@@ -16,13 +17,13 @@ RULE = ('case = sequence of 8-40 operations (get, get_or_compute, forced, raisin
         'every computed value unique. non-trivial = sequence containing a hit after a store AND (a damage op followed by an access, or a '
         'sub-cache/other-key access between store and hit); distinct = hash(op sequence)')
 REQUIRED = ['ops', 'hits', 'computes', 'forced_replacements', 'get_absent', 'get_present', 'raising_computers', 'damage_then_access',
-            'truncations_recovered', 'swaps_reported', 'subcache_ops', 'roundtrips_checked', 'wrong_shape_json_recovered', 'held_values_rechecked', 'forced_with_equal_value_of_other_json_type']
+            'truncations_recovered', 'swaps_reported', 'subcache_ops', 'roundtrips_checked', 'wrong_shape_json_recovered', 'held_values_rechecked', 'forced_with_equal_value_of_other_json_type', 'returned_values_mutated_by_caller']
 ASSUMPTIONS = ['a damaged file that still loads to exactly the stored value counts as intact',
                'swap (foreign-key file) is only applied to JsonCache, the only cache type that records the key',
                'which exception type reports a foreign-key file is not checked; InMemoryCache is used from one thread']
 BUDGET = {'quick': 45, 'thorough': 900}
 
-KEYS = ['k', '', 'a/b', '../x', 'line\nbreak', 'é', '😀' * 3, 'K', 'k ', '{"key": "k"}', 'x' * 5000, '\x00', 'k ']
+KEYS = ['caf\u00e9', 'cafe\u0301', 'k', '', 'a/b', '../x', 'line\nbreak', 'é', '😀' * 3, 'K', 'k ', '{"key": "k"}', 'x' * 5000, '\x00', 'k ']
 
 
 class Boom(Exception):
@@ -101,6 +102,8 @@ def gen_ops(rng, kind):
             ops.append({'op': 'goc', 'key': k, 'sub': sub, 'force': True, 'morph': rng.random() < 0.3})
         elif r < 0.72:
             ops.append({'op': 'goc', 'key': k, 'sub': sub, 'raises': True, 'force': rng.random() < 0.4})
+        elif r < 0.78:
+            ops.append({'op': 'mutate_returned'})     # the caller modifies, in place, a value a lookup handed out earlier (its own copy)
         elif kind != 'memory':
             d = rng.choice(['trunc0', 'trunc1', 'trunchalf', 'truncn1', 'garbage', 'delete', 'swap', 'wrongjson', 'trunc_rand'])
             if d == 'swap' and (not kind.startswith('json') or len(keys) < 2):
@@ -152,6 +155,24 @@ def run_sequence(kind, ops, res: CaseResult):
 
         for i, op in enumerate(ops):
             res.count('ops')
+            if op['op'] == 'mutate_returned':
+                if held and kind != 'memory':      # (an in-memory cache keeps references by design)
+                    import numpy as np
+                    import pandas as pd
+                    j, v_, c_ = held.pop(random.Random(i).randrange(len(held)))
+                    try:
+                        if isinstance(v_, list):
+                            v_.append('MUTATED BY CALLER')
+                        elif isinstance(v_, dict):
+                            v_['MUTATED'] = 1
+                        elif isinstance(v_, np.ndarray) and v_.size and v_.dtype.kind in 'iuf':
+                            v_ += 100
+                        elif isinstance(v_, pd.DataFrame):
+                            v_['MUTATED'] = 0
+                        res.count('returned_values_mutated_by_caller')
+                    except Exception:
+                        pass
+                continue
             sub = tuple(op['sub'])
             mk = (sub, op['key'])
             ent = model.get(mk)
@@ -308,7 +329,7 @@ def run_sequence(kind, ops, res: CaseResult):
                 if tcanon(got) != tcanon(value):
                     res.violate(f'{here}: returned {short(got)} but the computer produced {short(value)}', witness=wit)
                     return
-                model[mk] = {'value': value, 'state': 'ok'}
+                model[mk] = {'value': copy.deepcopy(value), 'state': 'ok'}       # (the caller may modify ITS object later)
                 if any(k != mk for k in model):
                     nontriv['interleaved'] = True
             else:
